@@ -109,6 +109,23 @@ func C06(r *Run) *core.Report {
 		}
 	}
 	rep.MinCount("C06.E1", "callback events on evaluated paths", nCb, 8)
+	// E6: the janitor removes entries only through the public DeleteExpired (whose paths are decided above, the
+	// callback load included) - restated from C15.J1/J5
+	nj := 0
+	for _, o := range C15(r).Obs {
+		if o.Trivial || !(strings.HasPrefix(o.Rule, "C15.J1") && strings.Contains(o.Construct, "ticker case cleans up") || strings.HasPrefix(o.Rule, "C15.J5")) {
+			continue
+		}
+		c := *o
+		c.Construct = "[" + o.Rule + "] " + o.Construct
+		c.Rule = "C06.E6"
+		if c.Status != core.Pass {
+			c.Detail = "the janitor does not clean up through the public DeleteExpired: its removals are not covered by the callback rules (callback in force, once per removed entry). " + c.Detail
+		}
+		rep.Obs = append(rep.Obs, &c)
+		nj++
+	}
+	rep.MinCount("C06.E6", "janitor clean-up obligations", nj, 2)
 	// E5 second half: borrowed from C13.L5
 	tmp := core.NewReport("C06")
 	c13L5(r, tmp)
